@@ -309,6 +309,48 @@ def check_circuit_side(ctx):
     shape.match(ctx, "R12.6", CIRC + ".Circuit.is_mixed", r, "self.dom.count(bit) and self.dom.count(qubit) or any((layer.cod.count(bit) and layer.cod.count(qubit) for layer in self.layers)) "
                 "or any((box.is_mixed for box in self.boxes))", {}, body=fn.body, mod=CIRC, node=fn, sig="is-mixed",
                 required="mixed as soon as one box is mixed or bits and qubits coexist on the domain or after any layer")
+    # get_counts and measure enumerate the outcomes through index2bitstring: every bitstring of the right length exactly once
+    from ..fold import fold as ffold, CannotFold
+    import itertools as _it
+    ib = m.func(CIRC + ".index2bitstring")
+    ctx.analysed(CIRC + ".index2bitstring")
+    iv_, lv_ = (a.arg for a in ib.args.args[:2])
+    badb = []
+    try:
+        for n_ in range(0, 5):
+            got = []
+            for i_ in range(2 ** n_):
+                env_ = {iv_: i_, lv_: n_, "tuple": tuple, "map": lambda f, x: list(map(f, x)), "int": int, "str": str, "len": len, "bin": bin, "range": range, "reversed": lambda x: list(reversed(x)), "list": list}
+                val = None
+                for st in ib.body:
+                    if isinstance(st, ast.Expr) and isinstance(st.value, ast.Constant):
+                        continue
+                    try:
+                        ffold(st.test if isinstance(st, ast.If) else st.value if isinstance(st, ast.Return) else ast.Constant(0), env_)
+                    except (ValueError, TypeError, IndexError, KeyError) as e:        # the folded expression itself fails on this input
+                        val = "raises %s" % type(e).__name__
+                        break
+                    if isinstance(st, ast.If):
+                        if ffold(st.test, env_):
+                            last = st.body[-1]
+                            if isinstance(last, ast.Raise):
+                                val = "raises"
+                                break
+                            if isinstance(last, ast.Return):
+                                val = ffold(last.value, env_)
+                                break
+                        continue
+                    if isinstance(st, ast.Return):
+                        val = ffold(st.value, env_)
+                        break
+                    raise CannotFold("statement %s" % ast.unparse(st)[:40])
+                got.append(tuple(val) if isinstance(val, (list, tuple)) else val)
+            if sorted(map(repr, got)) != sorted(map(repr, _it.product((0, 1), repeat=n_))):
+                badb.append("length %d: %s" % (n_, got[:5]))
+    except CannotFold as e:
+        raise AnalysisError("index2bitstring cannot be folded: %s" % e)
+    ctx.ob("R12.6", CIRC + ".index2bitstring", not badb, found=badb[:2] or "a bijection onto the bitstrings of each length 0..4", required="i -> the i-th bitstring of the given length: all of them, each once, "
+           "with leading zeros (outcomes are enumerated through it)", mod=CIRC, node=ib, sig="index2bitstring")
     # which boxes count as classical (not doubled by the mixed functor): digits first, so that a box without wires (a stochastic weight) is classical
     bi = m.func(CIRC + ".Box.__init__")
     ctx.analysed(CIRC + ".Box.__init__")
